@@ -3,6 +3,6 @@
 # runs the property's quick check against a tree with the seeded change applied
 sid=$1; prop=$2; tree=$3; base=$4; shift 4
 cd /verif
-VERIF_REPO=$tree VERIF_SLOT_BASE=$base VERIF_NO_CACHE=1 python3 check.py $prop --tier quick "$@" > /verif/seeded/$sid/check_$prop.log 2>&1
+VERIF_EVIDENCE_DIR=/verif/seeded/$sid VERIF_REPLAY_DIR=/verif/seeded/$sid/replays VERIF_REPO=$tree VERIF_SLOT_BASE=$base VERIF_NO_CACHE=1 python3 check.py $prop --tier quick "$@" > /verif/seeded/$sid/check_$prop.log 2>&1
 echo "exit=$?" >> /verif/seeded/$sid/check_$prop.log
-cp /verif/evidence/$prop.json /verif/seeded/$sid/evidence_$prop.json 2>/dev/null
+
